@@ -14,7 +14,7 @@ ALL_OPS = ["ins", "rem", "get", "fetch", "evict_all", "hold", "gate", "close"]
 def profile(name, policy, **kw):
     p = dict(name=name, policy=policy, algo="fifo", shards=1, keys=[1, 2, 3], hash={1: 5, 2: 5, 3: 6},
              keyloc={1: "default", 2: "default", 3: "default"}, memcap=2, flush_on_close=True, tomblog=True,
-             ops=list(ALL_OPS), max_steps=5, max_ins=3, bufcap=128, reject=[], cfg=dict(mem.DEFAULT_CFG))
+             ops=list(ALL_OPS), max_steps=5, max_ins=3, bufcap=128, reject=[], writer=False, cfg=dict(mem.DEFAULT_CFG))
     p.update(kw)
     return p
 
@@ -30,6 +30,8 @@ def profiles_for(pid, tier):
                             hash={1: 5, 2: 6, 3: 7}))
         # disk-only inserts (placement advice / storage writer) whose returned handle the caller keeps for a while
         for pol in ("woe", "woi"):
+            edge.append(profile(f"{pol}-writer-held", pol, keys=[1, 2], hash={1: 5, 2: 6}, keyloc={1: "ondisk", 2: "default"},
+                                ops=["ins", "ins_h", "rem", "get", "evict_all"], max_steps=d, max_ins=3, writer=True))
             edge.append(profile(f"{pol}-ondisk-held", pol, keys=[1, 2], hash={1: 5, 2: 6}, keyloc={1: "ondisk", 2: "default"},
                                 ops=["ins", "ins_h", "rem", "get", "evict_all", "hold"], max_steps=d + 1, max_ins=3))
         edge.append(profile("woi-lru-evictall", "woi", algo="lru", memcap=9, max_steps=d - 1, hash={1: 5, 2: 6, 3: 7}))
@@ -55,6 +57,8 @@ def profiles_for(pid, tier):
             # the admission filter rejects key 2: it must never reach the device, and an older copy must not stay readable
             edge.append(profile(f"{pol}-reject", pol, keyloc={1: "default", 2: "default", 3: "ondisk"}, hash=h, reject=[6],
                                 ops=["ins", "get", "fetch", "evict_all", "close"], max_steps=d, max_ins=4))
+            # disk-only inserts through the storage writer API
+            edge.append(profile(f"{pol}-writer", pol, keyloc=locs, hash=h, ops=ops, max_steps=d - 1, max_ins=3, writer=True))
         edge.append(profile("woe-lfu-advice", "woe", algo="lfu", memcap=9, keyloc=locs, hash=h, ops=ops, max_steps=d - 1))
         edge.append(profile("woi-sieve-advice", "woi", algo="sieve", memcap=9, keyloc=locs, hash=h, ops=ops, max_steps=d - 1))
     elif pid == "C15":
@@ -103,7 +107,7 @@ def write_model(d, p, emit):
     lines = ["SPECIFICATION MCSpec", "CONSTANTS", f"  Keys = {core.tla_value(set(p['keys']))}", "  Hash <- c_Hash",
              "  KeyLoc <- c_KeyLoc", f"  MemCap = {p['memcap']}", f"  Policy = \"{p['policy']}\"",
              f"  FlushOnClose = {core.tla_value(p['flush_on_close'])}", f"  TombLog = {core.tla_value(p['tomblog'])}",
-             f"  BufCap = {p['bufcap']}", f"  Reject = {core.tla_value(set(p['reject']))}", f"  OpSet = {core.tla_value(set(p['ops']))}", f"  MaxSteps = {p['max_steps']}",
+             f"  BufCap = {p['bufcap']}", f"  Reject = {core.tla_value(set(p['reject']))}", f"  Writer = {core.tla_value(bool(p['writer']))}", f"  OpSet = {core.tla_value(set(p['ops']))}", f"  MaxSteps = {p['max_steps']}",
              f"  MaxIns = {p['max_ins']}", f"  Emit = {'TRUE' if emit else 'FALSE'}", "CHECK_DEADLOCK FALSE"]
     lines += ["VIEW MCView"] if emit else ["INVARIANT Inv"]
     name = "MC_emit.cfg" if emit else "MC_inv.cfg"
@@ -118,7 +122,7 @@ def harness_cfgs(d, p):
     with open(hpath, "w") as f:
         json.dump({"policy": p["policy"], "flush_on_close": p["flush_on_close"], "tomblog": p["tomblog"],
                    "memcap": p["memcap"], "keyloc": {str(k): v for k, v in p["keyloc"].items()},
-                   "buffer_pages": p["bufcap"], "reject": list(p["reject"])}, f)
+                   "buffer_pages": p["bufcap"], "reject": list(p["reject"]), "ondisk_via_writer": bool(p["writer"])}, f)
     return cfg, hpath
 
 
@@ -215,7 +219,7 @@ def trace_check(d, p, scripts, invariant, tag, max_rounds=6):
             "SPECIFICATION TraceSpec", "CONSTANTS", f"  Keys = {core.tla_value(set(p['keys']))}", "  Hash <- c_Hash",
             "  KeyLoc <- c_KeyLoc", f"  MemCap = {p['memcap']}", f"  Policy = \"{p['policy']}\"",
             f"  FlushOnClose = {core.tla_value(p['flush_on_close'])}", f"  TombLog = {core.tla_value(p['tomblog'])}",
-            f"  BufCap = {p['bufcap']}", f"  Reject = {core.tla_value(set(p['reject']))}", f"INVARIANT {invariant}", "POSTCONDITION Consumed", "CHECK_DEADLOCK FALSE"]) + "\n")
+            f"  BufCap = {p['bufcap']}", f"  Reject = {core.tla_value(set(p['reject']))}", f"  Writer = {core.tla_value(bool(p['writer']))}", f"INVARIANT {invariant}", "POSTCONDITION Consumed", "CHECK_DEADLOCK FALSE"]) + "\n")
     out = []
     pending = list(scripts)
     rounds = 0
